@@ -668,6 +668,8 @@ class StmtMixin:
         i = run.fresh('it', sym.I)
         if n is not None:
             run.assume(z3.And(0 <= i, i <= n))
+        else:
+            run.assume(i >= 0)
         L, invs = inv_at(i, 'assume')
         for nm, g in invs:
             run.assume(g)
@@ -688,7 +690,7 @@ class StmtMixin:
                 pass
             except BreakEx:
                 return                        # leaves the loop: continue after it with the current state
-            _, invs2 = inv_at(i + 1 if n is not None else i, 'pres')
+            _, invs2 = inv_at(i + 1, 'pres')
             for nm, g in invs2:
                 run.oblige(f'{tag}.{nm}.preserved', g, kind='inv_pres', lineno=st.lineno)
             if dec0 is not None:
